@@ -83,8 +83,14 @@ def _running(case, ctx, ws=None, n=None):
                     ctx.count("running:even_w")
                 one = {"kind": "running_big" if ws else "running", "n": n, "w": w, "seed": case["seed"], "dtype": dt, "method": method}
                 reg = f"{method}:{'w>n' if w > n else 'w<=n'}:{'even' if w % 2 == 0 else 'odd'}"
+                xin = x
+                if (n + w) % 3 == 0 and n > 1:   # same values in a strided view
+                    big = np.zeros(2 * n, dtype=x.dtype)
+                    big[::2] = x
+                    xin = big[::2]
+                    ctx.count("variant:strided_input")
                 try:
-                    got = stats.running_filter(x, w, method=method)
+                    got = stats.running_filter(xin, w, method=method)
                 except Exception as exc:  # noqa: BLE001
                     ctx.violation(f"running-raised[{reg}]:{type(exc).__name__}@{exc_site(exc)}", f"n={n} w={w} {dt}: {fmt_exc(exc)}", one)
                     continue
@@ -202,7 +208,8 @@ def _ds2d(case, ctx, d2s=None):
                     want = blocks.mean(axis=(1, 3)) if method == "mean" else np.median(blocks.transpose(0, 2, 1, 3).reshape(m1, m2, f1 * f2), axis=2)
                     ctx.evaluated(); ctx.count("downsample_2d")
                     try:
-                        got = stats.downsample_2d(a, (f1, f2), method)
+                        ain = np.array(a.T, order="C", copy=True).T if (f1 + f2 + d2) % 3 == 0 else a   # transposed strides, same values
+                        got = stats.downsample_2d(ain, (f1, f2), method)
                         _check2d(ctx, dict(one, method=method), f"downsample_2d:{method}", got, want, dt, scale)
                     except Exception as exc:  # noqa: BLE001
                         ctx.violation(f"downsample_2d-raised:{method}:{type(exc).__name__}@{exc_site(exc)}", fmt_exc(exc), one)
